@@ -13,6 +13,12 @@ A case is one of
       same list object keeping its length ({"kind": "update", "i", "votes"} = CVR.update_votes on element i,
       {"kind": "replace", "i", "card"} = element i replaced by a new CVR); "cvrs" is the list after the last round,
       on which everything is evaluated once more and compared with the (stateless) model; the oracle checks every round.
+      optionally with "shared": [{"contest", "share", "cvrs"}, ...] and "main_at": k (implies "direct"): several contests
+      (measures) with the same candidates and winners whose assertions are built by DIRECT calls of
+      make_supermajority_assertion / make_plurality_assertions that are all handed the SAME winner / loser list
+      objects (a loop over measures); the case's own contest is constructed after shared[:k]; once all are constructed
+      everything is evaluated for every one of them (the model is asked about the case's own contest, the oracle
+      checks all of them: a construction must not depend on, or disturb, what was built from the same lists).
   {"op": "irv",     "contest", "candidates", "assertions", "cvrs"}
   {"op": "margin",  "scf", "winner", "loser", "candidates", "share", "cards", "tally"}
 A cvr is {"id": str, "votes": [[contest, [[candidate, value], ...]], ...]}: dicts are written as lists of pairs so
@@ -219,7 +225,8 @@ def make_marks(rng, cands, chosen, p_explicit_falsy=0.3, extra_keys=()):
     return m
 
 
-def gen_contest(rng, tier):
+def gen_contest(rng, tier, like=None):
+    """`like`: an earlier case whose candidates, social choice function and winners are kept (another measure)"""
     names = rng.choice(NAMES)
     nc = rng.choice([2, 2, 3, 3, 3, 4, 4, 5, 6])
     cands = list(names[:nc])
@@ -228,7 +235,10 @@ def gen_contest(rng, tier):
     rng.shuffle(cands)
     scf = rng.choice([PLUR, PLUR, PLUR, APPR, SUPER, SUPER])
     contest = rng.choice(["AvB", "c1", "Measure 1"])
-    if scf == SUPER:
+    if like is not None:
+        cands, nc, scf = list(like["candidates"]), len(like["candidates"]), like["scf"]
+        winners, k, n_winners = list(like["winners"]), len(like["winners"]), like["n_winners"]
+    elif scf == SUPER:
         winners = [rng.choice(cands)]
         if rng.chance(0.02):
             winners = ["NO_CANDIDATE"]          # not a candidate: the NotImplementedError branch of the margin
@@ -360,6 +370,25 @@ def gen_sequence(rng, tier):
     return {**base, "cvrs": state, "order": order, "rounds": rounds}
 
 
+def gen_shared(rng, tier):
+    """2-4 contests (measures) with the same candidates and winners but their own names, shares and ballots, whose
+    assertions are built by direct constructor calls that are all handed the same winner / loser list objects"""
+    for _ in range(20):
+        base = gen_contest(rng, tier)
+        if base["winners"] and all(w in base["candidates"] for w in base["winners"]):
+            break
+    else:
+        return base
+    others = []
+    for k in range(rng.choice([1, 1, 2, 3])):
+        o = gen_contest(rng, tier, like=base)
+        others.append({"contest": f"{o['contest']} #{k + 2}", "share": o["share"],
+                       "cvrs": [{"id": c["id"], "votes": [[(o["contest"] + f" #{k + 2}") if kk == o["contest"] else kk, m]
+                                                          for kk, m in c["votes"]]} for c in o["cvrs"]]})
+    base.pop("direct", None)
+    return {**base, "direct": True, "shared": others, "main_at": rng.randint(0, len(others))}
+
+
 def gen_irv(rng, tier):
     names = rng.choice(NAMES[:2])
     nc = rng.choice([2, 3, 3, 4, 4, 5])
@@ -421,10 +450,12 @@ def gen_margin(rng, tier):
 def gen(rng, n, tier):
     for i in range(n):
         u = rng.random()
-        if u < 0.64:
+        if u < 0.58:
             yield gen_contest(rng, tier)
-        elif u < 0.8:
+        elif u < 0.74:
             yield gen_sequence(rng, tier)
+        elif u < 0.82:
+            yield gen_shared(rng, tier)
         elif u < 0.93:
             yield gen_irv(rng, tier)
         else:
@@ -540,6 +571,8 @@ def impl_contest(case):
     cid = case["contest"]
     rounds = case.get("rounds") or []
     cvrs = _cvrs({"cvrs": rounds[0]["cvrs"]} if rounds else case)      # the one list object of the whole case
+    if case.get("shared") is not None:
+        return _impl_shared(case)
     cons = Contest.from_dict_of_dicts({cid: _contest_dict(case, len(cvrs))})
     con = cons[cid]
     if case["scf"] == APPR or (case.get("direct") and case["scf"] == PLUR):
@@ -563,6 +596,36 @@ def impl_contest(case):
         res["rounds"] = hist
         res["state"] = _readback(cvrs)
     return res
+
+
+def _shared_subcases(case):
+    """the contests of a "shared" case in construction order, as plain contest cases; the case's own comes at main_at"""
+    plain = {k: v for k, v in case.items() if k not in ("shared", "main_at", "rounds", "order")}
+    subs = [{**plain, "contest": o["contest"], "share": o["share"], "cvrs": o["cvrs"]} for o in case["shared"]]
+    k = case.get("main_at", len(subs))
+    return subs[:k] + [plain] + subs[k:], k
+
+
+def _impl_shared(case):
+    """direct constructor calls for several contests, every call handed the SAME winner / loser list objects"""
+    from shangrla.core.Audit import Contest, Assertion
+    subs, k = _shared_subcases(case)
+    winner = list(case["winners"])                                              # ONE list object each,
+    loser = [c for c in case["candidates"] if c not in set(case["winners"])]     # reused for every contest
+    built = []
+    for sc in subs:
+        cvrs = _cvrs(sc)
+        cons = Contest.from_dict_of_dicts({sc["contest"]: _contest_dict(sc, len(cvrs))})
+        con = cons[sc["contest"]]
+        if sc["scf"] == SUPER:
+            con.assertions = Assertion.make_supermajority_assertion(contest=con, winner=winner[0], loser=loser)
+        else:
+            con.assertions = Assertion.make_plurality_assertions(contest=con, winner=winner, loser=loser)
+        built.append((cons, con, sc["contest"], cvrs))
+    res = [_evaluate(cons, con, cid, cvrs, FIELDS) for cons, con, cid, cvrs in built]
+    out = res[k]
+    out["shared"] = res[:k] + res[k + 1:]
+    return out
 
 
 def impl_irv(case):
@@ -743,6 +806,8 @@ def signature(case, ir):
         flags.append("overvote")
     if not all(ir["has_contest"]):
         flags.append("nocontest")
+    if case.get("shared") is not None:
+        flags.append("shared")
     if case.get("rounds"):
         m0 = [a["mean_nostyle"] for a in ir["rounds"][0]["assertions"].values()]
         flags.append("seq-flip" if all(x > 0.5 + TOL for x in m0) != (out == "allwin") else "seq")
@@ -785,6 +850,16 @@ def oracle_c02(case, ir):
             return {"what": f"last evaluation on one list object, after the amendments "
                             f"{[o for q in case['rounds'] for o in q['ops']]}: " + v["what"]}
         return tagged or v
+    if case.get("shared") is not None and ir.get("st") == "ok":
+        subs, k = _shared_subcases(case)
+        results = ir["shared"][:k] + [ir] + ir["shared"][k:]
+        for j, (sc, r) in enumerate(zip(subs, results)):
+            v = _oracle_state(sc, {**r, "st": "ok"})
+            if v and not v.get("finding"):
+                return {"what": f"contest {sc['contest']!r}, constructed {j + 1}. of {len(subs)} by direct calls that "
+                                f"were handed the same winner / loser list objects: " + v["what"]}
+            tagged = tagged or v
+        return tagged
     return _oracle_state(case, ir)
 
 
